@@ -8,7 +8,7 @@ props = [json.loads(l) for l in open('/verif/properties.jsonl')]
 # id -> (level, technique, text, note, engine, design_ref)
 CHECKS = {
  'C01': ('exploration', 'bounded-exhaustive program enumeration (grammar families up to a node budget) through the real lexer/parser/compiler/VM against an independent reference interpreter',
-         'Every program of each grammar family up to its node budget is rendered to source, run through the real pipeline and through the reference interpreter internal/refsem; value, error class, ordered print/emit log and final globals must agree. Complete within the families and budgets reported in the evidence file.',
+         'Every program of each grammar family up to its node budget is rendered to source, run through the real pipeline and through the reference interpreter internal/refsem; value, error class, ordered print/emit log and final globals must agree. Families: operator chains, control skeletons by node budget, functions, scoping (also inside closures over a function local: F4c), containers/strings incl. unpacking from every container, errors/defer/try, and the composition family F8 (59 expression-bearing contexts x 16 value-preserving wrappers x 14 side-effecting inner expressions). Complete within the families and budgets reported in the evidence file.',
          'Trusted: the reference interpreter (DESIGN Appendix A semantics sheet; constructs outside the sheet are not generated or are skipped as outside-sheet). Programs larger than the node budget are not covered.',
          'E1 progen+refsem', '4 C01'),
  'C03': ('exploration', 'bounded-exhaustive enumeration of hostile inputs in crash-isolating worker processes (token sequences, grammar-slot templates, single-token edits, every default callable/method x hostile argument tuples, deep nesting)',
@@ -20,11 +20,11 @@ CHECKS = {
          'Trusted: the effect table in internal/bcflow (validated per run by step-hook conformance), the vm step hook (tag verif). Programs outside the generated families are not covered.',
          'E2 bcflow', '4 C04'),
  'C02': ('exploration', 'bounded-exhaustive enumeration of closure nestings x capture level x call path against a reference interpreter with heap environments',
-         'Every combination of nesting depth 1..3 (thorough 1..5), owning level, per-level in-place/returned call path, read/write access and 11 invocation routes (direct, containers, builtin callbacks, try, call, spawn, fn.spawn, vm.Get+vm.Call from Go) is rendered to source and run on the real pipeline and on the reference interpreter; the escaped closure is invoked twice and a sibling closure over the same binding is read afterwards.',
+         'Every combination of nesting depth 1..3 (thorough 1..5), owning level, per-level in-place/returned call path, read/write access and 11 invocation routes (direct, containers, builtin callbacks, try, call, spawn, fn.spawn, vm.Get+vm.Call from Go) is rendered to source and run on the real pipeline and on the reference interpreter; the escaped closure is invoked twice and a sibling closure over the same binding is read afterwards. Plus the binding family F4c: every placement of up to 3 (thorough 4) operations on a name that is a local of the enclosing function over 7 slots of the inner function.',
          'Trusted: the reference interpreter. One known finding (capture across a returned frame) is matched by a generator-side structural tag; any other disagreement is a violation.',
          'E1 progen+refsem', '4 C02'),
  'C05': ('exploration', 'bounded-exhaustive enumeration of Go map iteration orders at every dynamic map-range site (source-to-source seam generated at check time) x corpus programs',
-         'tools/mapseam rewrites all 59 range-over-map sites of the risor packages into a harness-controlled iterator (build overlay; /repo untouched). For every corpus program and every dynamic site it executes, every alternative order of that one site (all permutations for <= 3 keys; reverse, rotations, boundary swaps above) is forced; value, error text, output, MarshalCode bytes and re-marshalled bytes must equal the base order.',
+         'tools/mapseam rewrites all 59 range-over-map sites of the risor packages into a harness-controlled iterator (build overlay; /repo untouched). For every corpus program and every dynamic site it executes, every alternative order of that one site (all permutations for <= 3 keys; reverse, rotations, boundary swaps above) is forced; value, error text, output, MarshalCode bytes and re-marshalled bytes must equal the base order. The corpus includes every deterministic default builtin and every map/set method applied to a 4-key map and set, alone and with tie-making printing callbacks.',
          'Trusted: the go/types-based rewriter finds every range over a map (sites are listed in .work/seam-*/sites.json); dependence on memory addresses and on timing is not covered.',
          'E6 mapseam', '4 C05'),
  'C06': ('model_checking', 'stateless model checking of the implementation: controlled scheduler over the hooked goroutines, every cancellation instant x every schedule up to a deviation bound, promptness counted in VM instructions',
@@ -32,11 +32,11 @@ CHECKS = {
          'Trusted: the verif hooks cover every blocking operation and goroutine start of the packages involved; a granted operation that was enabled only by a cancelled context and does not return within 10 s (twice) is reported as blocked forever. Real-time latency is not measured.',
          'E3 dsched', '4 C06'),
  'C07': ('model_checking', 'explicit enumeration of API histories on one VM, each explored under the controlled scheduler over all placements of stale context cancellations and watcher stores up to a deviation bound; differential oracle against a fresh VM',
-         'Every history of 1..3 invocations (thorough: larger alphabet, length 4) over RunCode/Call x outcome kinds (normal, runtime error at depth 0/2, recovered Go panic, frame overflow, cancelled mid-run) x one stale cancel of an earlier invocation context; the canceller, the watcher goroutines of all runs and the main task are interleaved at VM-instruction granularity within the deviation bound. Each invocation must return the (value, error class, stack depth) it returns on a fresh VM.',
+         'Every history of 1..3 invocations (thorough: larger alphabet, length 4) over RunCode/Call x outcome kinds (normal, runtime error at depth 0/2, recovered Go panic, frame overflow, cancelled mid-run, a Call that fails inside a function after it created a closure) x one stale cancel of an earlier invocation context; the canceller, the watcher goroutines of all runs and the main task are interleaved at VM-instruction granularity within the deviation bound. Each invocation must return the (value, error class, stack depth) it returns on a fresh VM.',
          'Trusted: the expected results are computed by the same harness on fresh VMs. One known finding (Call of a function whose code was replaced by a later RunCode).',
          'E4 histbfs on E3 dsched', '4 C07'),
  'C08': ('exploration', 'bounded-exhaustive enumeration of Go types (reflect-built, depth 2/3) x boundary values x 4 boundary routes with a contents + typed round-trip oracle',
-         'Every Go type from 38 leaf types under 6 constructors to depth 2 (thorough 3), with zero/nil/min/max/ordinary values, crosses the boundary by 4 routes (global, field read, field write, method argument/result) in crash-isolated workers; contents must equal the normalised original, the typed round trip must be DeepEqual, or a clean error; never a panic.',
+         'Every Go type from 38 leaf types under 6 constructors to depth 2 (thorough 3), with zero/nil/min/max/ordinary values, crosses the boundary by 4 routes (global, field read, field write, method argument/result) in crash-isolated workers; contents must equal the normalised original, the typed round trip must be DeepEqual, or a clean error; never a panic. Array refill histories: a full list and then a shorter list into the same Go array type (also nested rows) must be rejected or leave the missing positions zero.',
          'Trusted: the normalisation function N and the relaxations listed in DESIGN (nil vs empty, integer width under any). Types beyond depth 3, chan/func/complex are out of scope.',
          'E5 enum + E7 crashbox', '4 C08'),
  'C11': ('model_checking', 'explicit-state graph search: GetAttr closure of every configuration (fixpoint) + every script-level access path evaluated on the real VM; Go map iteration order owned through the map seam',
@@ -48,7 +48,7 @@ CHECKS = {
          'Trusted: the law checker; cross-type transitivity is not demanded (statement). One known finding (set membership across numeric types).',
          'E5 enum', '4 C15'),
  'C16': ('model_checking', 'explicit-state BFS to a fixpoint over reachable container states (real objects replayed from the shortest history) against a Go slice/map reference model, plus all un-merged operation sequences to depth 2/3',
-         'Reachable states of list, map, set, string and byte_slice under the full operation alphabet with indices in [-len-2, len+2] are explored to a fixpoint; every (state, operation) step is executed on fresh real objects through the object API (and a stride / all of them through real scripts) and compared with the reference model on result, error and the contents of every live alias.',
+         'Reachable states of list, map, set, string and byte_slice under the full operation alphabet with indices in [-len-2, len+2] (map values include nil) are explored to a fixpoint; every (state, operation) step is executed on fresh real objects through the object API (and a stride / all of them through real scripts) and compared with the reference model on result, error and the contents of every live alias.',
          'Trusted: the reference model in internal/c16/model.go; the state key (contents of all live variables) is complemented by un-merged sequences so hidden state (capacity) cannot hide.',
          'E4 histbfs', '4 C16'),
  'C17': ('exploration', 'bounded-exhaustive differential execution: every corpus program compiled, marshalled, unmarshalled and run side by side with the original',
@@ -56,7 +56,7 @@ CHECKS = {
          'Trusted: the harness comparison of (stage, error class/message, value text, output log). Programs outside the corpus are not covered.',
          'E1 progen', '4 C17'),
  'C20': ('exploration', 'bounded-exhaustive enumeration of layout variants at every token gap and of single-token edits, against a position-free dump of the real AST and positional sanity of every diagnostic',
-         'For every corpus program: every token gap x permitted insertions, line breaks where the statement allows them, comments at line ends, blank lines, CRLF; the reflection dump of the real AST (positions removed) must equal the original. For diagnostics: every single-token deletion/duplication/substitution and every prefix; each parse/compile error must point inside the source, quote that line verbatim, and render without failing.',
+         'For every corpus program: every token gap x permitted insertions, line breaks where the statement allows them, comments at line ends, blank lines, CRLF; the reflection dump of the real AST (positions removed) must equal the original. For diagnostics: every single-token deletion/duplication (each also with CRLF line ends)/substitution and every prefix; each parse/compile error must point inside the source, quote that line verbatim, and render without failing.',
          'Trusted: the harness renderer knows the syntactic role of each gap (line breaks are only inserted after commas of list/map/set/argument lists, symbolic binary operators and pipes). Two known findings (positions at end of input).',
          'E5 enum over E1 corpus', '4 C20'),
  'C18': ('model_checking', 'explicit enumeration of all piece histories up to a depth on one compiler + one VM driven as the REPL does, against a reference session model',
@@ -72,11 +72,11 @@ CHECKS = {
          'Trusted: the access hooks name every package-level map and cache of the anchored files (typeConverters, goTypeRegistry, GoType.converter, codecs, importer code caches); accesses the hooks do not name are only covered by the -race supplement.',
          'E3 dsched', '4 C09'),
  'C10': ('model_checking', 'stateless model checking of the implementation: controlled scheduler over the hooked goroutines, DFS over all schedules up to a preemption bound, happens-before race detection on hooked accesses',
-         'Each producer/consumer scenario (senders x receivers x buffer x messages x 4 receive forms x 3 spawn forms) is run as real risor evaluations under the controlled scheduler internal/dsched; every schedule with at most 2 preemptions is enumerated and every complete execution is judged: received multiset == sent multiset, per-sender order per receiver, wait() values, nil after close, no deadlock, no leftover task, no unordered access to the channel fields.',
+         'Each producer/consumer scenario (senders x receivers x buffer x messages x 4 receive forms x 3 spawn forms) is run as real risor evaluations under the controlled scheduler internal/dsched; every schedule with at most 2 preemptions is enumerated - including, for every send or receive that cannot complete on arrival, the alternative that the task enters the real operation and blocks inside it until a later send, receive or close wakes it (the scheduler reads the wait queue of the Go channel to know it is blocked), so the blocked-then-woken paths of the implementation run too - and every complete execution is judged: received multiset == sent multiset, per-sender order per receiver, wait() values, nil after close, no deadlock, no leftover task, no unordered access to the channel fields.',
          'Trusted: the scheduler owns every blocking operation through the verif hooks (channel send/receive/close, thread wait, spawn/start/end, context wait, halt store); instruction-level interleavings inside one VM step and memory-model effects below hook granularity are not modelled. 10^4-message runs are out of reach (DESIGN section 5).',
          'E3 dsched', '4 C10'),
  'C14': ('model_checking', 'explicit-state BFS over import-statement histories against a reference model, plus bounded-exhaustive enumeration of import path texts x spellings x importers with sentinels outside the root',
-         'Part A: every path text of <= 3 (thorough 4) segments over a hostile segment alphabet x 16 import spellings x 3 importers (recording fs.FS, naive joining fs.FS, local importer on a real tree) with sentinel modules planted at every reachable outside location. Part B: every sequence of <= 3 (thorough 4) import statements over a 15-letter alphabet on a module tree with shared names, a diamond and a failing module; each sequence is executed on the real implementation with both importers and every probe is compared with a reference model (module bodies run exactly once, aliases share state, globals are separate).',
+         'Part A: every path text of <= 3 (thorough 4) segments over a hostile segment alphabet x 16 import spellings x 3 importers (recording fs.FS, naive joining fs.FS, local importer on a real tree) with sentinel modules planted at every reachable outside location. Part B: every sequence of <= 3 (thorough 4) import statements over a 19-letter alphabet (incl. one name under two aliases and two file modules in one from-import) on a module tree with shared names, a diamond and a failing module; each sequence is executed on the real implementation with both importers and every probe is compared with a reference model (module bodies run exactly once, aliases share state, globals are separate).',
          'Trusted: the reference model of module state in internal/c14; import cycles are not generated.',
          'E4 histbfs + E5 enum', '4 C14'),
  'C12': ('exploration', 'bounded-exhaustive enumeration of every OS-touching function/method (discovered from the live modules) x argument tuples x execution contexts x ways of supplying the OS, against a recording OS; real-process effects checked after every case',
@@ -84,7 +84,7 @@ CHECKS = {
          'Trusted: the call templates (expected OS-call logs) in internal/c12/cases.go. exec, network modules and the importer\'s own file reads are exempt by the statement; os.exit(non-zero) inside go-statement contexts is excluded (it would block the harness).',
          'E5 enum + E7 crashbox', '4 C12'),
  'C13': ('exploration', 'bounded-exhaustive enumeration of path strings x operations x layouts against a component-wise containment oracle',
-         'Every path string over the 7-segment alphabet up to 5 (quick) / 6 (thorough) segments, absolute/relative, with/without trailing separator, is pushed through os.ResolvePath, through every localfs operation on a real temp tree with sentinels outside the base, and through every VirtualOS operation over 7 mount tables x 4 working directories with recording filesystems; the oracle is an independent component-wise prefix computation. Complete within the stated alphabet and length.',
+         'Every path string over the 7-segment alphabet up to 5 (quick) / 6 (thorough) segments, absolute/relative, with/without trailing separator, is pushed through os.ResolvePath, through every localfs operation on a real temp tree with sentinels outside the base, and through every VirtualOS operation over 7 mount tables x 4 working directories with recording filesystems; the oracle is an independent component-wise prefix computation. Part D: every history of <= 3 (thorough 4) steps over Stat/Remove/Rename on relative and absolute paths and Chdir on one VirtualOS per mount table, each step judged against the working directory of that moment. Complete within the stated alphabet and length.',
          'Trusted: the oracle in internal/c13 (filepath.Clean + component-wise prefix); effects observed on a real tmpfs tree. Not covered: segments outside the alphabet, host-planted symlinks.',
          'E5 enum', '4 C13'),
 }
